@@ -65,7 +65,7 @@ CLAIMS['C18'] = dict(
     text=('For every library function that may write a string / buffer / string_stream / std::basic_string / numeric formatter object through `this` or a non-const '
           'reference (143 target parameters) and every rvalue parameter it may move from, a forward analysis over the function\'s CFG '
           'shows that no throw expression of the function itself and no call whose throw set contains unicode_error / codec_error / bad_format / out_of_range can follow the first '
-          'write to the target or the consumption of the rvalue. Throw sets and write/move effects come from whole-module summaries.'),
+          'write to the target or the consumption of the rvalue. Throw sets and write/move effects come from whole-module summaries; an exception raised only behind a test of the failure return of a C library call is reported undecided (its feasibility is not an effect-order question).'),
     note=('relative to: clang-14 lowering, effect and throw summaries, CFG paths not pruned for feasibility (conservative); FILE* / '
           'ostream sinks are not targets; leak-freedom on these paths is C19'),
     technique='static analysis: typestate-style event ordering on CFGs with interprocedural effect and throw summaries')
@@ -161,7 +161,7 @@ CLAIMS['C13'] = dict(
           'all 16 (sign flag, precision given, notation) combinations of ST::format\'s renderer and for float_formatter: the assembled '
           'conversion string is exactly %[+][.digits]{e,E,f,g} NUL-terminated (assembled in a buffer, or a literal with the precision passed through .*), the size given to snprintf is the size of its destination, no '
           'assertion is reachable whatever snprintf reports - any length (an unbounded symbol) or, when the conversion carries a precision, its failure return (<= 0: the rendering does not fit an int) -, the emitted length is the reported '
-          'one and the pad count is width - length on the requested side; to_float / to_double call strtof / strtod directly and follow '
+          'one and the pad count is width - length on the requested side; the renderer throws only on a path on which snprintf reported failure (model of the precision otherwise); to_float / to_double call strtof / strtod directly and follow '
           'the ok / full_match table.'),
     note=('relative to: clang-14 lowering, STIR, the snprintf model (writes at most size bytes, returns the untruncated length >= 1, or a value <= 0 when a precision / width in the conversion string can make the rendering longer than INT_MAX); the '
           'digits produced are libc\'s - not analysed, which is why the level is not "proof" of the value equation'),
@@ -246,7 +246,7 @@ CLAIMS['C17'] = dict(
           'instantiation builds one writer over its format string and runs apply_format, the string forms ending in to_string(true, mode) '
           'resp. to_string(false, assume_valid); operator<< inserts basic_string(b.data(), b.size()) of to_buffer(b) and operator>> sets '
           'the string from the extracted token (c_str(), size()), a token object that is empty when the extraction starts on every path (a basic_string that outlives the call and is not cleared keeps the previous token when the stream yields none); the string writer, after constructor + append_char / append of a byte >= 0x80, answers to_string(utf8, validation) only through string_stream::to_string with those arguments; an append_char that writes a run in one piece from a std::basic_string block hands over units set to ch in this call. Not decided: that libc / iostream deliver what they are handed, what the '
-          'conversions and the driver produce (C01-C03, C10, C11); for a writer that stages bytes in a buffer of its own the call-order clause is decided (no byte of a later call reaches the sink while staged bytes may be pending: witness with one staged byte), that it flushes everything in the end is reported undecided; a writer that transcodes its text in pieces is a finding when a piece can end inside a multi-byte character (witness: a well-formed text with that character across the cut, on a first-iteration path), otherwise undecided. R17.8: the data pointer of append never reaches a function that reads a NUL-terminated string (printf family, fputs, strlen, measuring library functions); in operator>> nothing changes the string after it was set from the token.'),
+          'conversions and the driver produce (C01-C03, C10, C11); for a writer that stages bytes in a buffer of its own the call-order clause is decided (no byte of a later call reaches the sink while staged bytes may be pending: witness with one staged byte), that it flushes everything in the end is reported undecided; a writer that transcodes its text in pieces is a finding when a piece can end inside a multi-byte character (witness: a well-formed text with that character across the cut, on a first-iteration path), otherwise undecided. R17.8: the data pointer of append never reaches a function that reads a NUL-terminated string (printf family, fputs, strlen, measuring library functions), and no append_char member hands a buffer of its own to fputs / puts / fputws (a run of NUL characters would arrive empty); in operator>> nothing changes the string after it was set from the token.'),
     note=('relative to: clang-14 lowering, STIR, libc / libstdc++ output primitives trusted, C10 (dispatch only through append / append_char), '
           'C16; writers instantiated in gen/driver.cpp; level "other": necessary hand-over facts plus a stated (not mechanised) induction over the call sequence'),
     technique='static analysis: abstract interpretation of the sink members with symbolic arguments (sink-call events vs the arguments received), call-graph facts for the entry points')
